@@ -11,6 +11,12 @@ completes; exit status non-zero iff the worker saw a failure; lock free / failed
 task is never locked or executed again until released; after release it is retried."""
 from . import exectrace as X
 
+# hypotheses of this property's theorems that are other properties of the list: their ties are re-run (reduced) by
+# harness/main.py after this module's run(); a failure there is reported as a violation of this property
+HYPOTHESES = {
+    'C04': (0.5, 'a failed marker is sticky on every backend until explicitly released'),
+}
+
 EVIDENCE = dict(
     level='proof',
     rule='one case = (program with failing tasks, flags, schedule) -> one recorded multi-worker run; non-trivial when the trace '
